@@ -177,6 +177,11 @@ fn deep_input(shape: &str, n: usize) -> String {
         "closed" => format!("{}a{}", "(".repeat(n), ")".repeat(n)),
         "open" => format!("{}a", "(".repeat(n)),
         "not" => format!("{}a", "!".repeat(n)),
+        // a chain of prefix operators in front of a MALFORMED operand (every alternative the parser tries fails)
+        "not_exists_empty" => format!("{}exists()", "!".repeat(n)),
+        "not_forall_open" => format!("{}forall(", "!".repeat(n)),
+        "not_accumulate_empty" => format!("{}accumulate()", "!".repeat(n)),
+        "not_dangling_operator" => format!("{}a ==", "!".repeat(n)),
         _ => String::new(),
     }
 }
@@ -287,6 +292,18 @@ fn describe(shape: &str, n: usize) -> String {
         _ => format!("\"!\"*{n} + \"a\""),
     }
 }
+/// short chains of `!` (40: far below the size at which the known super-linear cost of the rule parser shows) in front of malformed operands:
+/// a retry per `!` doubles the work per level, so 40 levels never finish; 10 s watchdog per input in a child process
+fn c05_not_chain_malformed_operand_grl_rule() -> (bool, String) {
+    let shapes = ["not_exists_empty", "not_forall_open", "not_accumulate_empty", "not_dangling_operator"];
+    for sh in shapes {
+        let case = format!("grl_rule:{}:40", sh);
+        if let Err(e) = run_child(&case) {
+            return (true, format!("{} on `{}` as the `when` clause of a GRL rule (GRLParser::parse_rules, child process, 10 s watchdog)", e, deep_input(sh, 40)));
+        }
+    }
+    (false, format!("{} inputs `!`*40 + malformed operand (exists(), forall(, accumulate(), a ==) return within the watchdog", shapes.len()))
+}
 fn c05_deep_nesting_expression_parser() -> (bool, String) {
     deep("expression")
 }
@@ -312,5 +329,6 @@ pub fn witnesses() -> Vec<crate::W> {
         ("c05_deep_nesting_query_parser", c05_deep_nesting_query_parser),
         ("c05_deep_nesting_grl_query_parser", c05_deep_nesting_grl_query_parser),
         ("c05_deep_nesting_grl_rule_condition", c05_deep_nesting_grl_rule_condition),
+        ("c05_not_chain_malformed_operand_grl_rule", c05_not_chain_malformed_operand_grl_rule),
     ]
 }
